@@ -19,7 +19,7 @@ type c09 struct{ base }
 
 func init() {
 	runner.Register(&c09{base{id: "C09", level: "exploration",
-		rule:        "strings derived from valid condition and update sentences (generated ASTs rendered to text): every token-boundary prefix, every single-token deletion / duplication / adjacent swap, insertions from a vocabulary (keywords in three letter cases, comparators, ( ) [ ] . , + -, placeholders, names), juxtapositions 's1 s2', trailing tokens, unbalanced parentheses; byte level: random bytes incl. NUL, UTF-8 multibyte, control characters, lengths {0,1,2,3..64,255,256,1023,4095,4096}, whitespace-only, '((((...' and 'NOT NOT ...' nests up to 4 KB; hostile bindings (alias cycles, aliases containing '.'). Each string is evaluated with interpreter.Language.Match / Update in a worker process (a fatal error kills only the worker; a watchdog bounds run time) and a sample through PutItem/UpdateItem/Scan on both adapters. Oracle: runtime panic / fatal error never admissible; a string the LIBERAL recogniser (superset grammar, case-insensitive keywords) rejects must be rejected; a sentence must be rejected or evaluate to the value of the WHOLE sentence; at the client API a rejection must surface as an error or the documented panic. non-trivial = non-empty; distinct by (grammar, token-kind sequence).",
+		rule:        "strings derived from valid condition and update sentences (generated ASTs rendered to text): every token-boundary prefix, every single-token deletion / duplication / adjacent swap, insertions from a vocabulary (keywords in three letter cases, comparators, ( ) [ ] . , + -, placeholders, names), juxtapositions 's1 s2', trailing tokens, unbalanced parentheses; byte level: random bytes incl. NUL, UTF-8 multibyte, control characters, lengths {0,1,2,3..64,255,256,1023,4095,4096}, whitespace-only, '((((...' and 'NOT NOT ...' nests up to 4 KB; hostile bindings (alias cycles, aliases containing '.'). Each string is evaluated with interpreter.Language.Match / Update in a worker process (a fatal error kills only the worker; a watchdog bounds run time) and a sample through PutItem/UpdateItem/Scan on both adapters. Oracle: runtime panic / fatal error never admissible; a string the LIBERAL recogniser (superset grammar, case-insensitive keywords) rejects must be rejected; a sentence must be rejected or evaluate to the value of the WHOLE sentence; at the client API a rejection must surface as an error or the documented panic. non-trivial = non-empty; distinct by (grammar, token-kind sequence). Every direct evaluation runs under a termination guard (30 s; normal is microseconds): an evaluation that does not return while its goroutine is inside the interpreter is reported once (does-not-return), the worker skips and counts its remaining cases; hostile list positions (negative, fractional, huge, not a number) also where an element is READ.",
 		assumptions: append([]string{"'not a sentence' is only claimed for strings outside a deliberately liberal superset grammar"}, commonAssumptions...)}})
 }
 
